@@ -7,7 +7,8 @@ from .. import adapters, core, family, operators, soup
 from ..draw import composite
 
 RULE = ("files: members of the conforming/violating families, stacked variants (2-4 operators on one file, several diagnostics per line), "
-        "files with lexical diagnostics carrying several highlights, bad lexemes and non-ASCII characters, 1-3 files per report; oracle: "
+        "files with lexical diagnostics carrying several highlights, bad lexemes and non-ASCII characters, 1-3 files per report; ALL files of <= 3 (thorough: 4) "
+        "symbols over a 12-symbol alphabet under a .c and a .h name; oracle: "
         "every diagnostic has a catalogue code with exactly the catalogue text, level Error|Notice, >=1 highlight, 1 <= line <= number of "
         "lines, 1 <= column <= visual width of that line + 1; printed positions ascend; the JSON report parses and lists the same files, verdicts and diagnostics in the same "
         "order as the humanized one (in-process formatters, and through the CLI for a sample); comparator laws (irreflexive, asymmetric, "
@@ -277,6 +278,23 @@ def replay(pid, case):
     return [(k, b["what"]) for k, b in camp.buckets.items()]
 
 
+def shard_tiny(length, lo, hi):
+    """every file of `length` symbols over the 12-symbol alphabet, as a source and as a header: reports about the shortest possible files
+    (end-of-file paths of the rules) are held to the same well-formedness rules"""
+    from .. import soup
+    camp = core.Campaign()
+    for idx in range(lo, hi):
+        t = soup.nth_string(soup.ALPHA12, length, idx)
+        for name in ("x.c", "x.h"):
+            camp.count("tiny-files")
+            check_files(camp, [(name, t, "tiny")])
+    return camp
+
+
+def _dispatch(fn, kw):
+    return fn(**kw)
+
+
 def run(pid, tier, seed):
     t0 = time.time()
     files, _ = adapters.parse_humanized("a.c: Error!\nError: SPC_BEFORE_NL        (line:   3, col:   5):\tSpace before newline\n")
@@ -288,5 +306,10 @@ def run(pid, tier, seed):
         for k, what in replay(pid, rc["case"]):
             camp.fail(k, what, rc["case"])
     comparator(camp, tier == "thorough")
-    camp.merge(core.run_shards(shard, [dict(seed=core.seed_of(seed, s, 8), n=n) for s in range(shards)]))
+    jobs = [dict(fn=shard, kw=dict(seed=core.seed_of(seed, s, 8), n=n)) for s in range(shards)]
+    for length in ((1, 2, 3) if tier == "quick" else (1, 2, 3, 4)):
+        total = 12 ** length
+        chunk = max(1, -(-total // 8))
+        jobs += [dict(fn=shard_tiny, kw=dict(length=length, lo=lo, hi=min(total, lo + chunk))) for lo in range(0, total, chunk)]
+    camp.merge(core.run_shards(_dispatch, jobs))
     return core.finish(pid, tier, seed, camp, RULE, t0, replay_fn=replay, assumptions=["zero-highlight diagnostics have no producer and are not constructed"])
